@@ -90,7 +90,7 @@ func randomFile(r *rand.Rand, mode string) FileDef {
 	}
 	fd := FileDef{Kind: "random", Opts: defaultOpts()}
 	fd.Opts.CI = r.IntN(2) == 0
-	nm := &namer{r: r, used: map[string]bool{}}
+	nm := newNamer(r)
 	nt := 1 + r.IntN(4)
 	blk := 0
 	for i := 0; i < nt; i++ {
